@@ -291,7 +291,7 @@ def validate(recs, name, maxiter=2, maxrun=40, chunk=1500, workers=12):
     wd = os.path.join(vlib.BUILD, "work", name)
     rejects, states, gen = {}, 0, 0
     cfg = os.path.join(wd, "cfgtrace.cfg")
-    open(cfg, "w").write("SPECIFICATION Spec\nCONSTANTS\n  MaxIter = %d\n  MaxRun = %d\nINVARIANT Static\nINVARIANT Dynamic\nINVARIANT Consumed\n"
+    open(cfg, "w").write("SPECIFICATION Spec\nCONSTANTS\n  MaxIter = %d\n  MaxRun = %d\nINVARIANT Static\nINVARIANT Model\nINVARIANT Drift\nINVARIANT Dynamic\nINVARIANT Consumed\n"
                          "CHECK_DEADLOCK FALSE\n" % (maxiter, maxrun))
     for off in range(0, len(recs), chunk):
         part = recs[off:off + chunk]
@@ -340,11 +340,21 @@ def run_check(prop, tier):
             raise vlib.ToolError("a generated body does not parse / lift: %s" % srcs[i])
     rejects, states, generated = validate(recs, name, maxiter=2, maxrun=40 if tier == "quick" else 60)
     others = 0
+    l1, drift = [], []
     for idx, why in rejects:
-        if prop_of(why) == prop:
+        if why.startswith("MODEL:"):
+            l1.append((idx, why))          # L1: the Impl model (Lifting.tla) itself violates Ref: a defect of the specification
+        elif why.startswith("DRIFT:"):
+            drift.append((idx, why))       # the code builds another graph than Lifting.tla: recorded, not a property violation
+        elif prop_of(why) == prop:
             v.violation("%s:%s" % (name, why), {"source": srcs[idx], "tokens": cases[idx]["toks"], "why": why})
         else:
             others += 1
+    if l1:
+        v.note("L1 FAILURE: Lifting.tla violates the reference clauses on %d tree(s), e.g. %s: %s" % (len(l1), json.dumps(cases[l1[0][0]]["toks"]), l1[0][1]))
+    if drift:
+        v.note("DRIFT: on %d of %d bodies the exported pre-SSA graph differs from the graph Lifting.tla builds (first: %s)" %
+               (len(drift), len(recs), json.dumps(srcs[drift[0][0]])))
     if others:
         v.note("%d rejection(s) belong to the clauses of the sibling properties (reported by their checks)" % others)
     nontriv = sum(1 for x in cases if any(t in ("if", "ife", "wh", "for") for t in x["toks"]))
@@ -357,6 +367,9 @@ def run_check(prop, tier):
                    "graphs judged by CfgTrace.tla with every decision sequence explored (<= 2 iterations per condition); non-trivial = "
                    "bodies with at least one branch or loop" % (steps, total, len(cases), "" if total == len(cases) else ", largest size class sampled"),
            "samples": [{"source": srcs[i]} for i in (0, len(srcs) // 2, len(srcs) - 1)],
-           "clauses_of_this_property": clauses}
+           "clauses_of_this_property": clauses,
+           "impl_model": {"module": "Lifting.tla", "trees_on_which_the_model_satisfies_the_reference_clauses": len(recs) - len(l1),
+                          "model_violations": len(l1), "bodies_where_the_real_graph_equals_the_model_graph": len(recs) - len(drift),
+                          "drift": len(drift)}}
     return v.finish(cov, assumptions=["statements are identified in the exported graphs by the literal they carry",
                                       "loop unrolling bound: each condition is decided true at most twice per run"])
